@@ -19,8 +19,10 @@ RULE = ("bodies are produced by the real MultipartWriter / FormData (part conten
         "identity / base64 / quoted-printable / gzip / deflate parts) or derived from such bodies by byte mutation; "
         "each body is delivered under a generated segmentation (segment sizes, arrival delays counted in stream "
         "operations, eager or late EOF) and read with a generated API schedule per part (read, read_chunk sizes, "
-        "readline, release, skip).  Non-trivial = at least one part was delivered without error; distinct by hash "
-        "of (wire bytes, segmentation, schedule, observable).")
+        "readline, release, skip); limit scenarios deliver over-long header lines / too many header lines / oversized parts "
+        "in small segments that arrive only on demand; the post suite sends FormData bodies through BaseRequest.post() "
+        "with client_max_size around the body size.  Non-trivial = at least one part was delivered without error; "
+        "distinct by hash of (wire bytes, segmentation, schedule, observable).")
 TRUSTED = [
     "translator/gen_multipart.py (size formula, framing shapes, constants, _BASE64_CHARS, window-search formula)",
     "extraction: ExtrOcamlBasic only; ocaml/common/conv.ml + ocaml/C19/driver.ml (hex/decimal I/O)",
@@ -762,7 +764,7 @@ def compare_obs(model, impl: str):
 
 def suite_roundtrip(ctx, exe, specs=None):
     rng = ctx.rng
-    n = 260 if ctx.quick else 6000
+    n = 400 if ctx.quick else 6000
     cases, lines, wlines = [], [], []
     for k in range(n):
         spec = gen_spec(rng, ctx.quick)
@@ -965,6 +967,7 @@ def run(ctx):
     suite_roundtrip(ctx, exe)
     suite_mutants(ctx, exe)
     suite_limits(ctx, exe)
+    suite_post(ctx)
 
 
 def run_corpus(ctx, exe):
@@ -1022,6 +1025,9 @@ def replay_case(exe, case):
         rb = rec.get("boundary") or b"--?"
         m = run_model_opt(exe, [model_line(rb[2:], bool(case.get("form")), segs, eager, case["sched"], limits)])[0]
         return {"impl": impl[-3000:], "model": (m or "")[-3000:], "disagree": bool(compare_obs(m, impl)), "bad": bad, "violates": bool(bad)}
+    if suite == "post":
+        outcome, bad, wire_len = post_case(case["spec"], case["client_max_size"], case["k"])
+        return {"impl": outcome, "bad": bad, "violates": bool(bad)}
     if suite == "writer":
         spec = case["spec"]
         w, origs = build_writer(spec)
@@ -1093,7 +1099,7 @@ def oracle_arbitrary(rec, total, nsegs):
 
 def suite_mutants(ctx, exe):
     rng = ctx.rng
-    n = 700 if ctx.quick else 20000
+    n = 1000 if ctx.quick else 20000
     cases, lines = [], []
     k = 0
     while k < n:
@@ -1209,3 +1215,90 @@ def suite_limits(ctx, exe):
             case["wire"] = wire.hex()
         report(ctx, case, bad)
     ctx.close_suite("limits", len(cases))
+
+
+# ----------------------------------------------------------------------------------------------
+# BaseRequest.post(): form fields round trip and client_max_size enforced while the parts are read
+
+def post_case(spec, M, k):
+    """-> (outcome, bad) for FormData spec -> BaseRequest.post() with client_max_size M, k-byte segments on demand"""
+    from aiohttp.test_utils import make_mocked_request
+    from aiohttp.web_exceptions import HTTPRequestEntityTooLarge
+    from aiohttp.web_request import FileField
+    w, origs = build_writer(spec)
+    wire, wparts, size = write_out(w, origs)
+    fields = [(p["name"], "filename" in p, bytes.fromhex(p["content"])) for p in spec["parts"]]
+    segs = [[10 ** 9, wire[i:i + k]] for i in range(0, len(wire), k)]
+    stream = make_stream(segs, False)
+    stream.max_ops = 40 * len(wire) + 20000
+    req = make_mocked_request("POST", "/", headers={"Content-Type": w.headers["Content-Type"]}, payload=stream,
+                              client_max_size=M)
+
+    async def go():
+        return await req.post()
+    bad = []
+    try:
+        with warnings.catch_warnings():
+            warnings.simplefilter("ignore")
+            res = drive(go(), stream, max_waits=len(segs) + 1000)
+        got = []
+        for name, v in res.items():
+            got.append((name, isinstance(v, FileField), v.file.read() if isinstance(v, FileField) else bytes(v)))
+        if 0 < M < len(wire):
+            bad.append(("limit", f"post(): body of {len(wire)} bytes accepted with client_max_size {M}", {}))
+        elif got != fields:
+            bad.append(("content", f"post(): fields read back differ from the fields written ({[(a, b, len(c)) for a, b, c in got]} vs "
+                        f"{[(a, b, len(c)) for a, b, c in fields]})", {}))
+        outcome = "ok"
+    except HTTPRequestEntityTooLarge:
+        outcome = "413"
+        if not (0 < M < len(wire)):
+            bad.append(("limit", f"post(): 413 for a body of {len(wire)} bytes with client_max_size {M}", {}))
+        elif stream.total_bytes > M + 3 * 8192 + 2 * k + 64:
+            bad.append(("limit-late", f"post(): client_max_size {M} enforced only after {stream.total_bytes} of {len(wire)} bytes had been taken "
+                        f"from the transport", {"fed": stream.total_bytes}))
+    except StepLimit:
+        outcome = "nontermination"
+        bad.append(("nontermination", "post() did not terminate within the step bound", {"api": None}))
+    except Exception as e:  # noqa
+        outcome = "exc:" + type(e).__name__
+        bad.append(("final", f"post() raised {e!r}", {"api": None}))
+    return outcome, bad, len(wire)
+
+
+def suite_post(ctx):
+    rng = ctx.rng
+    n = 60 if ctx.quick else 1500
+    ran = 0
+    for _ in range(n):
+        boundary = rng.choice(["BND", "0123456789abcdef0123456789abcdef", "x-y_z.0"])
+        bb = boundary.encode()
+        parts = []
+        big = rng.random() < 0.35
+        for i in range(rng.choice([1, 2, 3, 5])):
+            size = rng.choice([60000, 100000]) if (big and i == 0) else None
+            p = {"name": "f%d" % i, "content": gen_content(rng, bb, size).hex(), "ctype": "application/octet-stream"}
+            if rng.random() < 0.5:
+                p["filename"] = "up%d.bin" % i
+            parts.append(p)
+        spec = {"kind": "formdata", "boundary": boundary, "quote_fields": True, "parts": parts}
+        wl = sum(len(p["content"]) // 2 + 120 + len(boundary) for p in parts)
+        M = rng.choice([0, 0, 2 ** 20, wl, 1000, 20000])
+        k = rng.choice([1000, 4096, 9000])
+        try:
+            outcome, bad, wire_len = post_case(spec, M, k)
+        except (ValueError, AssertionError, TypeError, FramingError):
+            continue
+        if rng.random() < 0.3 and M == wl:      # exactly at / around the limit
+            for M2 in (wire_len - 1, wire_len, wire_len + 1):
+                o2, b2, _ = post_case(spec, M2, k)
+                ran += 1
+                ctx.case((json.dumps(spec, sort_keys=True), M2, k, o2), nontrivial=o2 == "ok")
+                ctx.count("post:" + o2)
+                report(ctx, {"suite": "post", "spec": spec, "client_max_size": M2, "k": k}, b2)
+        ran += 1
+        ctx.case((json.dumps(spec, sort_keys=True), M, k, outcome), nontrivial=outcome == "ok")
+        ctx.count("post:" + outcome)
+        report(ctx, {"suite": "post", "spec": spec, "client_max_size": M, "k": k}, bad)
+    ctx.oblige("oracle:post", "correspondence", ran > 0, "" if ran else "no cases ran")
+    ctx.count("suite:post", ran)
